@@ -15,7 +15,7 @@ OK == CASE Ev.k = "start" -> /\ (Ev.admitted => Cardinality(inflight) < T.m)    
                              /\ (Ev.kind = "noep" => Ev.code \in {503, 429})
        [] Ev.k = "slots" -> Ev.admitted = T.m - Cardinality(inflight)                             \* every slot came back exactly once: not fewer, not more
        [] OTHER -> TRUE
-Next == /\ l <= Len(T.events) /\ OK /\ l' = l + 1 /\ tr' = tr
+Next == /\ l <= Len(T.events) /\ (OK = TRUE) /\ l' = l + 1 /\ tr' = tr
         /\ inflight' = IF Ev.k = "start" /\ Ev.admitted /\ Ev.kind # "noep" THEN inflight \cup {Ev.id}
                        ELSE IF Ev.k = "finish" THEN inflight \ {Ev.id} ELSE inflight
 Spec == Init /\ [][Next]_vars
